@@ -699,6 +699,55 @@ pub fn gen_string(rng: &mut Rng) -> Vec<u8> {
         .collect()
 }
 
+/// strings whose spellings exercise the layout freedoms that proved fragile in other readers: parentheses nested
+/// several levels deep (`((()))`, `a(b(c(d)e)f)g`), small bytes directly before the digits 8, 9 and 0-7 (short
+/// octal escapes before a digit)
+pub fn gen_fragile_string(rng: &mut Rng) -> Vec<u8> {
+    fn nested(rng: &mut Rng, depth: usize, out: &mut Vec<u8>) {
+        let letters = rng.chance(1, 2);
+        if letters { out.push(b'a' + rng.below(26) as u8); }
+        if depth > 0 {
+            for _ in 0..(1 + rng.usize(2)) {
+                out.push(b'(');
+                nested(rng, depth - 1, out);
+                out.push(b')');
+                if out.len() > 40 { break; }
+            }
+        }
+        if letters && rng.chance(1, 2) { out.push(b'a' + rng.below(26) as u8); }
+    }
+    let mut out = vec![];
+    match rng.below(6) {
+        0 => { let d = 1 + rng.usize(5); out.extend(std::iter::repeat(b'(').take(d)); out.extend(std::iter::repeat(b')').take(d)); }
+        1 | 2 => { let d = 1 + rng.usize(4); nested(rng, d, &mut out); }
+        3 | 4 => {
+            // (byte, digit) pairs: the byte is small (one or two octal digits suffice) most of the time
+            for _ in 0..(1 + rng.usize(5)) {
+                out.push(match rng.below(4) { 0 => rng.below(8) as u8, 1 | 2 => rng.below(64) as u8, _ => rng.byte() });
+                out.push(*rng.pick(b"8989012345670"));
+            }
+        }
+        _ => {
+            let d = 1 + rng.usize(3);
+            nested(rng, d, &mut out);
+            let at = rng.usize(out.len() + 1);
+            out.insert(at, *rng.pick(b"89"));
+            out.insert(at, rng.below(64) as u8);
+        }
+    }
+    out
+}
+
+/// replaces about one string in five of `v` by a `gen_fragile_string` (C03 only: the generator proper is shared with C04)
+pub fn add_fragile_strings(rng: &mut Rng, v: &mut Val) {
+    match v {
+        Val::Str(s) => if rng.chance(1, 5) { *s = gen_fragile_string(rng); },
+        Val::Arr(xs) => xs.iter_mut().for_each(|x| add_fragile_strings(rng, x)),
+        Val::Dict(kvs) | Val::StreamPending(kvs, _) | Val::StreamInFile(kvs, ..) => kvs.iter_mut().for_each(|(_, x)| add_fragile_strings(rng, x)),
+        _ => {}
+    }
+}
+
 pub fn gen_name(rng: &mut Rng, cfg: &GenCfg) -> Vec<u8> {
     let n = rng.usize(9);
     if rng.below(100) < cfg.bad_name_pct {
@@ -1204,20 +1253,25 @@ fn gen_pcase_opt(seed: u64, case: u64, only_plain: bool) -> Option<PCase> {
         return None;
     }
     let (c, pmode): (RCase, &'static str) = if r < 55 {
-        let v = gen_val(&mut rng, 0, &cfg);
+        let mut v = gen_val(&mut rng, 0, &cfg);
+        add_fragile_strings(&mut rng, &mut v);
         (render_random(&mut rng, "val", v, tail, id, vec![]), "plain")
     } else if r < 60 {
         let levels = *rng.pick(&[19usize, 20, 21]);
-        let v = gen_deep(&mut rng, levels, &cfg);
+        let mut v = gen_deep(&mut rng, levels, &cfg);
+        add_fragile_strings(&mut rng, &mut v);
         if rng.chance(1, 2) { (render_random(&mut rng, "val", v, tail, id, vec![]), "plain") } else if only_plain { return None } else { (render_random(&mut rng, "ind", v, tail, id, vec![]), "ind0") }
     } else if r < 80 {
-        let v = gen_val(&mut rng, 0, &cfg);
+        let mut v = gen_val(&mut rng, 0, &cfg);
+        add_fragile_strings(&mut rng, &mut v);
         (render_random(&mut rng, "ind", v, tail, id, vec![]), if rng.chance(1, 2) { "ind0" } else { "ind1" })
     } else if r < 92 {
-        let (v, lens) = gen_stream(&mut rng, &cfg, true);
+        let (mut v, lens) = gen_stream(&mut rng, &cfg, true);
+        add_fragile_strings(&mut rng, &mut v);
         (render_random(&mut rng, "ind", v, tail, id, lens), if rng.chance(1, 2) { "ind0" } else { "ind1" })
     } else {
-        let (v, lens) = gen_stream(&mut rng, &cfg, true);
+        let (mut v, lens) = gen_stream(&mut rng, &cfg, true);
+        add_fragile_strings(&mut rng, &mut v);
         (render_random(&mut rng, "val", v, tail, id, lens), "stm")
     };
     let npre = if pmode == "stm" { 0 } else { rng.usize(6) };
@@ -1333,9 +1387,10 @@ fn gen_seq_case(seed: u64, case: u64) -> (RCase, Vec<u8>, usize) {
     let mut rng = Rng::derive(seed, "c03.seq", case);
     let cfg = GenCfg { bad_name_pct: 2, wild_names: false };
     let n = 2 + rng.usize(5);
-    let vs: Vec<Val> = (0..n).map(|_| gen_val(&mut rng, 1, &cfg)).collect();
+    let mut vs = Val::Arr((0..n).map(|_| gen_val(&mut rng, 1, &cfg)).collect());
+    add_fragile_strings(&mut rng, &mut vs);
     let tail: &[u8] = *rng.pick(&TAILS);
-    let c = render_random(&mut rng, "seq", Val::Arr(vs), tail, (0, 0), vec![]);
+    let c = render_random(&mut rng, "seq", vs, tail, (0, 0), vec![]);
     let npre = rng.usize(6);
     let mut buf = rng.bytes(npre);
     buf.extend_from_slice(&c.text);
@@ -1680,7 +1735,7 @@ fn tails_stream(driver: &Driver) -> Stream {
 
 fn gen_str_case(seed: u64, case: u64) -> (Vec<u8>, bool, Vec<u8>, usize, usize) {
     let mut rng = Rng::derive(seed, "c03.str", case);
-    let mut s = gen_string(&mut rng);
+    let mut s = if rng.chance(1, 6) { gen_fragile_string(&mut rng) } else { gen_string(&mut rng) };
     if rng.chance(1, 8) { for _ in 0..3 { s.extend(gen_string(&mut rng)); } }
     let is_hex = rng.chance(1, 3);
     let mut tape = Tape::lazy(Rng::new(rng.next()));
